@@ -39,7 +39,10 @@ impl ProcessRegistry {
     }
 
     pub async fn remove(&self, pid: &ExternalPid) -> Option<ProcessHandle> {
-        self.by_pid.write().await.remove(pid)
+        let handle = self.by_pid.write().await.remove(pid);
+        // a terminated process no longer owns its names
+        self.by_name.write().await.retain(|_, owner| owner != pid);
+        handle
     }
 
     pub async fn get(&self, pid: &ExternalPid) -> Option<ProcessHandle> {
